@@ -50,7 +50,7 @@ var cfgC03 = reg(PropCfg{
 
 var cfgC04 = reg(PropCfg{
 	ID: "C04",
-	Profile: &Profile{Weights: mixedWeights(), LockedActors: true, MultiPct: 20, PGranter: 12, PFeePayer: 8, MinBlocks: 8, MaxBlocks: 40, MaxTxs: 4, MaxOps: 3, PUpper: 5, PActor: 10, PNamed: 2, PFault: 5, PExec: 6,
+	Profile: &Profile{Weights: mixedWeights(), PBulk: 8, LockedActors: true, MultiPct: 20, PGranter: 12, PFeePayer: 8, MinBlocks: 8, MaxBlocks: 40, MaxTxs: 4, MaxOps: 3, PUpper: 5, PActor: 10, PNamed: 2, PFault: 5, PExec: 6,
 		PGovParams: 0, PBadRef: 5, Vesting: true, TinyLimits: true, ValidParams: true, FeeModes: []int{FeeExact, FeeExact, FeeExact, FeeLower, FeeHigher, FeeNone}},
 	Rule: "history with >=1 completion and >=1 partial unlock (0 < fee < locked) or a failed fee-paying tx of a locked payer",
 	NonTrivial: func(w *World) bool {
@@ -63,7 +63,7 @@ var cfgC04 = reg(PropCfg{
 var cfgC05 = reg(PropCfg{
 	ID: "C05",
 	Profile: &Profile{Weights: map[string]int{FeeGrantOp: 3, EntRaise: 14, EntDecide: 28, EntWL: 3, WrkReg: 8, WrkRec: 14, WrkPur: 4, BcnReg: 7, BcnRec: 12, BcnPur: 3, BankSend: 5, StrCreate: 3, StrClaim: 2, StrCancel: 1, StakeDeleg: 1},
-		MinBlocks: 8, MaxBlocks: 40, MaxTxs: 4, MaxOps: 3, MultiPct: 30, PSameKind: 25, LockedActors: true, PGranter: 12, PFeePayer: 10, PUpper: 5, PActor: 10, PNamed: 3, PFault: 8, PExec: 8,
+		PBulk: 10, MinBlocks: 8, MaxBlocks: 40, MaxTxs: 4, MaxOps: 3, MultiPct: 30, PSameKind: 25, LockedActors: true, PGranter: 12, PFeePayer: 10, PUpper: 5, PActor: 10, PNamed: 3, PFault: 8, PExec: 8,
 		PGovParams: 0, PBadRef: 5, Vesting: true, TinyLimits: true, ValidParams: true, FeeModes: []int{FeeExact, FeeExact, FeeExact, FeeLower, FeeHigher, FeeNone, FeeExactPlusExtraDenom}},
 	Rule: "history containing >=1 tx whose fee payer has locked eFUND > 0",
 	NonTrivial: func(w *World) bool { return w.Classes["c05.payer-with-locked"] > 0 },
